@@ -44,6 +44,11 @@ class t2blockincon(object):
         self.nseq, self.nadd = nseq, nadd
     def __getitem__(self, key): return self.variable[key]
     def __setitem__(self, key, value): self.variable[key] = value
+    def __copy__(self):
+        # a copy has its own variables and permeability, so editing it does not edit the original
+        from copy import copy
+        return t2blockincon(self.variable, self.block, self.porosity, copy(self.permeability),
+                            self.nseq, self.nadd)
     def __repr__(self):
         result = self.block + ':' + str(self.variable)
         if self.porosity is not None:
